@@ -19,6 +19,15 @@ package main
 //   7 (stream (t n)*)   thrift.SkipDecoder over bufiox.BytesReader: Next(t) must return the next n bytes
 //   8 (stream (t n)*)   thrift.BytesSkipDecoder
 //   9 (idx*)            Get on the shared StrMap[int] and Str2Str
+//   10 ((stream ((t n)*) chunks)*)   ReaderSkipDecoder through its sync.Pool, one user after the other (New, Next*, Release),
+//                        values beyond 64 KiB (private buffer 128 KiB .. 2 MiB); a co-tenant of this goroutine takes blocks of the
+//                        same mcache classes, paints and keeps them across the next user; every result is re-read after the
+//                        co-tenant repainted; the decoder's buffer is never a block the co-tenant holds
+//   11 (data final with chunks) ops  bufiox.DefaultReader, reader ops as kind 0, every slice RETAINED until Release and re-read after
+//                        every later op (Peek with ReadLen = 0 held across growth) while the co-tenant recycles blocks of those classes
+//   12 (pre data spare) ops          the same over a BytesReader; the caller's array must stay untouched
+//   kinds 5 and 6 also decode over a stream-backed DefaultReader, Release it, let the co-tenant repaint the freed
+//   blocks, overwrite the caller's buffer, and only then compare every decoded string (results own their bytes)
 // output  ((cycleout*)*) seqeq repseq (resets)
 //   cycleout: kinds 0..4: the per-op value outputs; kinds 5..9: (ok detail)
 //   seqeq: concurrent results equal the results of the sequential run; repseq: all repetitions equal
@@ -29,8 +38,11 @@ import (
 	"fmt"
 	"io"
 	"os"
+	"runtime"
+	"runtime/debug"
 	"sync"
 
+	"github.com/bytedance/gopkg/lang/mcache"
 	"github.com/cloudwego/gopkg/bufiox"
 	"github.com/cloudwego/gopkg/container/strmap"
 	"github.com/cloudwego/gopkg/protocol/thrift"
@@ -197,10 +209,313 @@ func c14Skip(p []V, ops []V) V {
 			d.Release()
 			d = thrift.NewReaderSkipDecoder(c09MkSrc(a[1:], nil))
 			outs = append(outs, Ls(I(3)))
+		case 3:
+			d.Release()
+			d = nil
+			outs = append(outs, Ls(I(3)))
+		case 4:
+			d = thrift.NewReaderSkipDecoder(c09MkSrc(a[1:], nil))
+			outs = append(outs, Ls(I(3)))
 		}
 	}
-	d.Release()
+	if d != nil {
+		d.Release()
+	}
 	return outs
+}
+
+// ---- a co-tenant of the shared mcache pool living in the goroutine of the cycle ----
+// It HOLDS painted blocks of the size classes the object under test uses while that object
+// works: a block the object freed too early (or twice) ends up here and is repainted under the
+// object's feet; a write of the object into a block it no longer owns destroys the paint.
+type c14Cot struct {
+	classes []int // size classes 2^c
+	blocks  [][]byte
+	fill    byte
+}
+
+type c14Chk struct{ n, bad int }
+
+func (c *c14Chk) ok(b bool) bool {
+	c.n++
+	if !b && c.bad == 0 {
+		c.bad = c.n
+	}
+	return b
+}
+func (c *c14Chk) out() V { return Ls(Bo(c.bad == 0), I(c.n), I(c.bad)) }
+
+func c14ClassOf(n int) int {
+	cl := 0
+	for 1<<cl < n {
+		cl++
+	}
+	return cl
+}
+
+// painted positions of a block: all of a small one; head, tail and a sparse grid of a big one
+func c14Paint(b []byte, f byte, check bool) bool {
+	at := func(i int) bool {
+		v := f + byte(i*13)
+		if check {
+			return b[i] == v
+		}
+		b[i] = v
+		return true
+	}
+	n := len(b)
+	if n <= 8192 {
+		for i := 0; i < n; i++ {
+			if !at(i) {
+				return false
+			}
+		}
+		return true
+	}
+	for i := 0; i < 4096; i++ {
+		if !at(i) {
+			return false
+		}
+	}
+	for i := 4096; i < n-256; i += 1024 {
+		if !at(i) {
+			return false
+		}
+	}
+	for i := n - 256; i < n; i++ {
+		if !at(i) {
+			return false
+		}
+	}
+	return true
+}
+
+func c14NewCot(lo, hi int, seed int) *c14Cot {
+	c := &c14Cot{fill: byte(seed*29 + 1)}
+	for cl := lo; cl <= hi; cl++ {
+		c.classes = append(c.classes, cl)
+	}
+	return c
+}
+
+func (c *c14Cot) take(k int) {
+	for _, cl := range c.classes {
+		for j := 0; j < k; j++ {
+			b := mcache.Malloc(1 << cl)
+			c14Paint(b, c.fill, false)
+			c.blocks = append(c.blocks, b)
+		}
+	}
+}
+func (c *c14Cot) intact() bool {
+	for _, b := range c.blocks {
+		if !c14Paint(b, c.fill, true) {
+			return false
+		}
+	}
+	return true
+}
+func (c *c14Cot) repaint() {
+	c.fill += 37
+	for _, b := range c.blocks {
+		c14Paint(b, c.fill, false)
+	}
+}
+
+// cycle: check the paint, take NEW blocks first (they drain the local pool, including whatever
+// the object under test freed since), then give the old ones back; everything repainted
+func (c *c14Cot) cycle(k int) bool {
+	ok := c.intact()
+	old := c.blocks
+	c.blocks = nil
+	c.fill += 37
+	c.take(k)
+	for i := len(old) - 1; i >= 0; i-- {
+		mcache.Free(old[i])
+	}
+	return ok
+}
+func (c *c14Cot) holds(p uintptr) bool {
+	if p == 0 {
+		return false
+	}
+	for _, b := range c.blocks {
+		if q := c09Ptr(b); p >= q && p < q+uintptr(cap(b)) {
+			return true
+		}
+	}
+	return false
+}
+func (c *c14Cot) drop() bool {
+	ok := c.intact()
+	for i := len(c.blocks) - 1; i >= 0; i-- {
+		mcache.Free(c.blocks[i])
+	}
+	c.blocks = nil
+	return ok
+}
+
+// the (big) streams of kinds 10..12 are expanded once per case and shared read-only by all
+// goroutines and repetitions
+var c14Streams sync.Map
+
+func c14Bytes(v V) []byte {
+	if b, ok := v.(VB); ok {
+		return b
+	}
+	key := Show(v)
+	if b, ok := c14Streams.Load(key); ok {
+		return b.([]byte)
+	}
+	b, _ := c14Streams.LoadOrStore(key, AsBytes(v))
+	return b.([]byte)
+}
+
+// kind 10: successive users of pooled ReaderSkipDecoders with big values
+func c14BigSkip(p []V) V {
+	users := AsList(p[0])
+	// the co-tenant's classes: two small ones and those of the decoder's buffer after each big
+	// value (growSlow asks for exactly p.n+n bytes: the class of the value's size)
+	cot := c14NewCot(2, 2, len(users))
+	cot.classes = append(cot.classes, 12)
+	seen := map[int]bool{2: true, 12: true}
+	for _, u := range users {
+		for _, it := range AsList(AsList(u)[1]) {
+			if n := AsInt(AsList(it)[1]); n > 60000 {
+				if cl := c14ClassOf(n); !seen[cl] && cl <= 22 {
+					seen[cl] = true
+					cot.classes = append(cot.classes, cl)
+				}
+			}
+		}
+	}
+	var ck c14Chk
+	cot.take(1)
+	for _, u := range users {
+		ua := AsList(u)
+		stream := c14Bytes(ua[0])
+		src := &c09Src{data: stream, final: io.EOF, chunks: c09Expand(ua[2])}
+		d := thrift.NewReaderSkipDecoder(src)
+		base, _, _, _ := thrift.VerifOwnRSD(d)
+		ck.ok(!cot.holds(base)) // a decoder from the pool never stands on somebody else's block
+		pos := 0
+		for _, it := range AsList(ua[1]) {
+			a := AsList(it)
+			n := AsInt(a[1])
+			b, err := d.Next(thrift.TType(AsInt(a[0])))
+			base, _, _, _ = thrift.VerifOwnRSD(d)
+			ck.ok(!cot.holds(base))
+			cot.repaint()
+			ck.ok(err == nil && string(b) == string(stream[pos:pos+n]))
+			if n > 60000 {
+				ck.ok(cot.cycle(1)) // what the decoder freed while growing is now painted by the co-tenant
+				ck.ok(err == nil && string(b) == string(stream[pos:pos+n]))
+			}
+			pos += n
+		}
+		d.Release()
+		ck.ok(cot.cycle(2)) // a buffer freed by Release would be caught here and held during the next user
+	}
+	ck.ok(cot.drop())
+	return ck.out()
+}
+
+// kinds 11, 12: a reader whose slices are all retained until Release
+func c14Retain(kind int, p []V, ops []V) V {
+	var r *bufiox.DefaultReader
+	var stream, arr, pristine []byte
+	if kind == 11 {
+		src := c09MkSrc(append([]V{VB(c14Bytes(p[0]))}, p[1:]...), nil)
+		stream = src.data
+		r = bufiox.NewDefaultReader(src)
+	} else {
+		pre, data, spare := AsBytes(p[0]), c14Bytes(p[1]), AsBytes(p[2])
+		arr = append(append(append(make([]byte, 0, len(pre)+len(data)+len(spare)), pre...), data...), spare...)
+		pristine = append([]byte(nil), arr...)
+		stream = data
+		r = &bufiox.NewBytesReader(arr[len(pre) : len(pre)+len(data) : len(arr)]).DefaultReader
+	}
+	mx := 4096
+	for _, o := range ops {
+		a := AsList(o)
+		if k := AsInt(a[0]); k <= 3 && len(a) > 1 && AsInt(a[1]) > mx {
+			mx = AsInt(a[1])
+		}
+	}
+	if mx > len(stream)+4096 {
+		mx = len(stream) + 4096
+	}
+	hi := c14ClassOf(mx) + 1
+	if hi > 21 {
+		hi = 21
+	}
+	cot := c14NewCot(12, hi, len(stream))
+	cot.take(1)
+	var ck c14Chk
+	var live []c09Live
+	cur := 0
+	for _, o := range ops {
+		a := AsList(o)
+		switch AsInt(a[0]) {
+		case 0, 1:
+			n := AsInt(a[1])
+			var b []byte
+			var err error
+			if AsInt(a[0]) == 0 {
+				b, err = r.Next(n)
+			} else {
+				b, err = r.Peek(n)
+			}
+			if err == nil && (b != nil || n == 0) {
+				live = append(live, c09Live{b, c09Seg(stream, cur, n)})
+				if AsInt(a[0]) == 0 {
+					cur += n
+				}
+			}
+		case 2:
+			if n := AsInt(a[1]); r.Skip(n) == nil {
+				cur += n
+			}
+		case 3:
+			k := AsInt(a[1])
+			bs := make([]byte, k)
+			m, _ := r.ReadBinary(bs)
+			if m > k {
+				m = k
+			}
+			if m < 0 {
+				m = 0
+			}
+			ck.ok(string(bs[:m]) == string(c09Seg(stream, cur, m)))
+			cur += m
+		case 4:
+			r.ReadLen()
+		case 5:
+			ck.ok(c09LiveOK(live)) // everything handed out since the last Release, right before it ends
+			r.Release(nil)
+			live = nil
+		case 6:
+			sd := thrift.NewSkipDecoder(r)
+			b, err := sd.Next(thrift.TType(AsInt(a[1])))
+			sd.Release()
+			if err == nil {
+				live = append(live, c09Live{b, c09Seg(stream, cur, len(b))})
+				cur += len(b)
+			}
+		}
+		st := bufiox.VerifOwnReader(r)
+		ck.ok(!cot.holds(st.Buf.Base))
+		for _, pb := range st.Pending {
+			ck.ok(!cot.holds(pb.Base))
+		}
+		ck.ok(cot.cycle(2)) // a block freed while slices into it are live is repainted here
+		ck.ok(c09LiveOK(live))
+	}
+	ck.ok(c09LiveOK(live))
+	r.Release(nil)
+	ck.ok(cot.drop())
+	ck.ok(string(arr) == string(pristine))
+	return ck.out()
 }
 
 // ---- self-checking cycles of the other pooled types ----
@@ -259,6 +574,49 @@ func c14Codec(p []V) V {
 	}
 	ok = ok && int(r.Readn()) == len(target)
 	r.Recycle()
+	// strings and binaries read through a stream-backed reader are held across Release/Recycle and
+	// the reuse of the reader's blocks by somebody else
+	cot := c14NewCot(12, c14ClassOf(len(target)+4096)+1, len(target))
+	cot.take(1)
+	rd := bufiox.NewDefaultReader(&c09Src{data: append([]byte(nil), target...), final: io.EOF, chunks: []int{7, 1000}})
+	r2 := thrift.NewBufferReader(rd)
+	var strs []string
+	var bins [][]byte
+	for _, v := range vals {
+		a := AsList(v)
+		switch AsInt(a[0]) {
+		case 8:
+			r2.ReadI32()
+		case 10:
+			r2.ReadI64()
+		case 11:
+			x, err := r2.ReadString()
+			ok = ok && err == nil
+			strs = append(strs, x)
+		case 12:
+			x, err := r2.ReadBinary()
+			ok = ok && err == nil
+			bins = append(bins, x)
+		case 2:
+			r2.ReadBool()
+		}
+	}
+	rd.Release(nil)
+	r2.Recycle()
+	ok = ok && cot.cycle(2)
+	cot.repaint()
+	for _, v := range vals {
+		a := AsList(v)
+		switch AsInt(a[0]) {
+		case 11:
+			ok = ok && strs[0] == string(AsBytes(a[1]))
+			strs = strs[1:]
+		case 12:
+			ok = ok && string(bins[0]) == string(AsBytes(a[1]))
+			bins = bins[1:]
+		}
+	}
+	ok = ok && cot.drop()
 	return Ls(Bo(ok), Bs(target))
 }
 
@@ -303,6 +661,54 @@ func c14Header(p []V) V {
 		dp2, err2 := ttheader.Decode(context.Background(), bufiox.NewBytesReader(target))
 		ok = ok && err2 == nil && dp2.SeqID == seq && len(dp2.StrInfo) == len(str) && len(dp2.IntInfo) == len(ints)
 	}
+	// decode results own their bytes: (a) from bytes the caller then overwrites, (b) from a
+	// stream-backed reader that is released and whose blocks somebody else then reuses
+	same := func(dp ttheader.DecodeParam) bool {
+		if len(dp.StrInfo) != len(str) || len(dp.IntInfo) != len(ints) {
+			return false
+		}
+		for k, v := range str { // look the keys up: the map's own key strings must still be intact
+			if got, has := dp.StrInfo[k]; !has || got != v {
+				return false
+			}
+		}
+		for k, v := range dp.StrInfo {
+			if want, has := str[k]; !has || want != v {
+				return false
+			}
+		}
+		for k, v := range ints {
+			if got, has := dp.IntInfo[k]; !has || got != v {
+				return false
+			}
+		}
+		return true
+	}
+	payload := AsInt(p[0]) % 3 * 3000
+	frame := append(append([]byte(nil), buf...), Pat(int(seq), payload)...)
+	tot = len(frame) - 4
+	frame[0], frame[1], frame[2], frame[3] = byte(tot>>24), byte(tot>>16), byte(tot>>8), byte(tot)
+	mine := append([]byte(nil), frame...)
+	dpa, erra := ttheader.DecodeFromBytes(context.Background(), mine)
+	for i := range mine {
+		mine[i] = 0xA5
+	}
+	ok = ok && erra == nil && dpa.PayloadLen == payload && same(dpa)
+	cot := c14NewCot(12, c14ClassOf(len(frame)+4096)+1, len(frame))
+	cot.take(1)
+	rd := bufiox.NewDefaultReader(&c09Src{data: frame, final: io.EOF, chunks: []int{14, 3, 2000}})
+	dpb, errb := ttheader.Decode(context.Background(), rd)
+	ok = ok && errb == nil && dpb.SeqID == seq && dpb.HeaderLen == len(buf) && dpb.PayloadLen == payload
+	if errb == nil {
+		pl, errp := rd.Next(dpb.PayloadLen)
+		ok = ok && errp == nil && string(pl) == string(frame[len(buf):])
+	}
+	rd.Release(nil)
+	ok = ok && cot.cycle(2) // the reader's blocks are now somebody else's, repainted
+	cot.repaint()
+	ok = ok && same(dpb)
+	ok = ok && cot.drop()
+	runtime.KeepAlive(mine)
 	return Ls(Bo(ok), I(len(buf)))
 }
 
@@ -435,6 +841,10 @@ func c14Cycle(m *c14Maps, c V) (out V) {
 		return c14SkipDec(kind, p)
 	case 9:
 		return c14Get(m, p)
+	case 10:
+		return c14BigSkip(p)
+	case 11, 12:
+		return c14Retain(kind, p, AsList(a[2]))
 	}
 	panic("c14: bad cycle kind")
 }
@@ -477,10 +887,17 @@ func c14Resets() V {
 	return Ls(Bo(thrift.VerifOwnBufferReaderIsReset(br)), Bo(thrift.VerifOwnBufferWriterIsReset(bw)), sdObs, bsObs, rsdObs)
 }
 
+var c14Once sync.Once
+
 func c14Run(in V) V {
 	if fn := os.Getenv("VERIF_C14_CUR"); fn != "" { // lets ./check name the case a race report belongs to
 		os.WriteFile(fn, []byte(Show(in)), 0o644)
 	}
+	// collect between cases (and when 3 GiB are reached) only: inside a case the pools keep their
+	// blocks, so that what one goroutine frees is what another one gets
+	c14Once.Do(func() { debug.SetGCPercent(-1); debug.SetMemoryLimit(3 << 30) })
+	runtime.GC()
+	c14Streams.Range(func(k, _ interface{}) bool { c14Streams.Delete(k); return true })
 	a := AsList(in)
 	G, R := AsInt(a[0]), AsInt(a[1])
 	scripts := AsList(a[2])
@@ -536,7 +953,7 @@ func init() {
 func genC14(g *Gen) {
 	// a library of small bufiox / ReaderSkipDecoder cycles: the C09 generator's cases
 	lg := &Gen{R: g.R, Tier: "quick", classes: map[string]int{}}
-	genC09(lg)
+	genC09With(lg, false)
 	var lib []V
 	for _, c := range lg.cases {
 		if len(Show(c)) < 260 {
@@ -564,10 +981,112 @@ func genC14(g *Gen) {
 	}
 	header := func() V {
 		var kvs VL = VL{}
-		for j := g.R.Intn(5); j > 0; j-- {
-			kvs = append(kvs, Ls(Str(fmt.Sprintf("key-%d-%d", j, g.R.Intn(1000))), str(g.R.Intn(40))))
+		nkv, long := g.R.Intn(5), 0
+		if g.R.Intn(4) == 0 {
+			nkv = 6 + g.R.Intn(20)
+		}
+		for j := nkv; j > 0; j-- {
+			vl := g.R.Intn(40)
+			if g.R.Intn(12) == 0 && long < 3 { // the header outgrows the reader's first buffer (but stays below MaxHeaderSize)
+				vl = []int{3000, 5000, 9000}[g.R.Intn(3)]
+				long++
+			}
+			var val V = str(vl)
+			if vl > 100 {
+				val = PatV(g.R.Intn(250), vl)
+			}
+			kvs = append(kvs, Ls(Str(fmt.Sprintf("key-%d-%d", j, g.R.Intn(1000))), val))
+		}
+		if g.R.Intn(3) == 0 { // the ACL token travels in its own info block (even position: a string key)
+			tok := Ls(Str(ttheader.GDPRToken), str(1+g.R.Intn(60)))
+			if len(kvs)%2 == 1 {
+				kvs = append(kvs, Ls(Str("pad"), str(3)))
+			}
+			kvs = append(kvs, tok)
 		}
 		return Ls(I(6), Ls(I(g.R.Intn(1<<30)), kvs), Ls())
+	}
+	// kind 10: users of pooled ReaderSkipDecoders with big values (sizes: payload of the big value, 0 = small only)
+	bigPlans := [][]int{{70000, 0}, {66000, 0, 70000}, {65537, 140000}, {140000, 0, 0}, {0, 70000, 0}, {200000, 66000}, {300000, 0}, {70000, 70001, 0},
+		{65537, 0}, {0, 66000}, {70000, 0, 0}, {100000, 0}, {66000, 70000}, {131073, 0}}
+	bigskip := func(huge bool) V {
+		plan := bigPlans[g.R.Intn(len(bigPlans))]
+		if huge {
+			plan = [][]int{{1000000, 0}, {0, 1100000, 70000}, {1048576 + 5, 0, 0}}[g.R.Intn(3)]
+		}
+		var users VL
+		for _, n0 := range plan {
+			var parts VL = VL{I(1)}
+			var items VL = VL{}
+			total := 0
+			addv := func(v c09Val) {
+				parts = append(parts, v.enc...)
+				items = append(items, Ls(I(v.t), I(v.n)))
+				total += v.n
+			}
+			if g.R.Intn(2) == 0 {
+				addv(c09GenVal(g, false))
+			}
+			if n0 == 0 {
+				addv(c09GenVal(g, true))
+			} else {
+				addv(c09GenBigVal(g, n0+g.R.Intn(3)))
+			}
+			if g.R.Intn(2) == 0 {
+				addv(c09GenVal(g, false))
+			}
+			var ch V = Ls()
+			switch g.R.Intn(3) {
+			case 0:
+				ch = Ls(I(1), I(0), Ls(I(65536), I(total/65536+2)))
+			case 1:
+				ch = Ls(I(3), Ls(I(total/3+1), I(5)))
+			}
+			users = append(users, Ls(parts, items, ch))
+		}
+		return Ls(I(10), Ls(users), Ls())
+	}
+	// kinds 11/12: retained slices; directed Peek-with-nothing-consumed-then-grow shapes and random histories
+	rop := func(k, n int) V { return Ls(I(k), I(n)) }
+	rrel := Ls(I(5))
+	var rlib []V
+	for _, c := range lib {
+		if k := AsInt(AsList(c)[0]); k == 0 || k == 1 {
+			rlib = append(rlib, c)
+		}
+	}
+	retain := func() V {
+		if g.R.Intn(3) == 0 {
+			c := AsList(rlib[g.R.Intn(len(rlib))])
+			return Ls(I(11+AsInt(c[0])), c[1], c[2])
+		}
+		n1 := []int{1, 16, 100, 1000, 4096}[g.R.Intn(5)]
+		n2 := []int{4097, 5000, 8192, 8193, 12000, 16385, 40000, 70000}[g.R.Intn(8)]
+		n3 := n2 + []int{1, 4096, 2 * n2, 140000 - n2}[g.R.Intn(4)]
+		dl := n1 + n2 + n3 + 10 + g.R.Intn(5000)
+		ch := []V{Ls(), Ls(Ls(I(1000), I(dl/1000+2))), Ls(I(4096), Ls(I(3000), I(dl/3000+2))), Ls(I(n1), I(100000))}[g.R.Intn(4)]
+		var ops VL
+		switch g.R.Intn(5) {
+		case 4: // everything read so far consumed (the source delivers exactly n1 first), then growth
+			ch = Ls(I(n1), I(100000))
+			ops = VL{rop(0, n1), rop(0, n2), rop(1, n3), rrel, rop(0, 1), rrel}
+		case 0: // Peek right after New, held across one and two growths
+			ops = VL{rop(1, n1), rop(1, n2), rop(1, n3), rop(0, n1), rrel}
+		case 1: // Peek right after a Release that kept unread bytes, then growth
+			ops = VL{rop(0, n1), rop(1, 8), rrel, rop(1, n1), rop(0, n2), rop(1, n1), rrel, rop(1, 1), rop(1, n3), rrel}
+		case 2: // Peek right after a Release that freed the buffer
+			ops = VL{rop(1, n1), rop(0, n1), rrel, rop(1, n1), rop(1, n2), rop(0, n2), rrel}
+		default:
+			ops = VL{rop(1, n1), rop(0, n2), rop(1, n1), rop(1, n3), rrel, rop(1, n1), rop(0, n1), rrel}
+		}
+		if g.R.Intn(3) == 0 {
+			c := 1
+			for c < dl {
+				c *= 2
+			}
+			return Ls(I(12), Ls(PatV(3, 8*g.R.Intn(2)), PatV(g.R.Intn(250), dl), PatV(5, []int{0, 7, c - dl}[g.R.Intn(3)])), ops)
+		}
+		return Ls(I(11), Ls(PatV(g.R.Intn(250), dl), I(20), I(g.R.Intn(2)), ch), ops)
 	}
 	skipd := func(kind int) V {
 		var parts VL = VL{I(1)}
@@ -596,11 +1115,48 @@ func genC14(g *Gen) {
 	for i := 0; i < g.Scale(150, 1200); i++ {
 		G := []int{2, 4, 8, 16}[g.R.Intn(4)]
 		R := 3 + g.R.Intn(g.Scale(25, 60))
+		// every fifth case: all goroutines run the pool-heavy cycles (big skip decoders, retaining
+		// readers, stream-decoded headers/codecs) over the same size classes
+		focus := i%5 == 1
+		huge := i%30 == 6
+		if focus {
+			R = 2 + g.R.Intn(g.Scale(6, 12))
+		}
+		if huge {
+			R = 2
+		}
 		var scripts VL
+		nbig := 0
 		for k := 0; k < G; k++ {
 			var s VL
 			for j := 1 + g.R.Intn(4); j > 0; j-- {
-				switch g.R.Intn(9) {
+				sel := g.R.Intn(12)
+				if focus {
+					sel = []int{9, 9, 10, 10, 10, 1, 0, 5}[g.R.Intn(8)]
+				}
+				switch sel {
+				case 9:
+					if !focus && g.R.Intn(8) != 0 {
+						s = append(s, lib[g.R.Intn(len(lib))])
+						break
+					}
+					nbig++
+					s = append(s, bigskip(huge && k < 3 && j == 1))
+				case 10:
+					if !focus && g.R.Intn(2) == 0 {
+						s = append(s, lib[g.R.Intn(len(lib))])
+						break
+					}
+					s = append(s, retain())
+				case 11:
+					if g.R.Intn(2) == 0 {
+						s = append(s, retain())
+					} else if g.R.Intn(8) == 0 {
+						nbig++
+						s = append(s, bigskip(false))
+					} else {
+						s = append(s, header())
+					}
 				case 0:
 					s = append(s, codec())
 				case 1:
@@ -617,6 +1173,13 @@ func genC14(g *Gen) {
 			}
 			scripts = append(scripts, s)
 		}
-		g.Add(fmt.Sprintf("G%d", G), Ls(I(G), I(R), scripts, Ls(I(nkeys), I(i))))
+		if nbig > 0 && R > 8 {
+			R = 8
+		}
+		cls := fmt.Sprintf("G%d", G)
+		if focus {
+			cls += "/pool"
+		}
+		g.Add(cls, Ls(I(G), I(R), scripts, Ls(I(nkeys), I(i))))
 	}
 }
